@@ -183,6 +183,54 @@ def do_call(spec, cache):
         if op == "read_container":
             rs = copy.deepcopy(spec["reader"]) if spec.get("reader") is not None else None
             return {"ok": [canon(to_wire(x)) for x in fastavro.reader(io.BytesIO(bytes.fromhex(spec["bytes"])), rs)]}
+        if op == "load":
+            # schema files in a directory (the history's own directory when there is one, else a new one): load_schema /
+            # load_schema_ordered; the files are as they were afterwards
+            import shutil
+            import tempfile
+            from fastavro.schema import load_schema, load_schema_ordered
+            own = cache.get("repo_dir") is None
+            d = tempfile.mkdtemp(prefix="c17repo") if own else cache["repo_dir"]
+            try:
+                if own or not cache.get("repo_written"):
+                    for name, sch in spec["files"].items():
+                        with open(os.path.join(d, name + ".avsc"), "w") as f:
+                            json.dump(sch, f)
+                    if not own:
+                        cache["repo_written"] = True
+                try:
+                    if spec.get("ordered"):
+                        res = load_schema_ordered([os.path.join(d, n + ".avsc") for n in spec["ordered"]])
+                    else:
+                        res = load_schema(os.path.join(d, spec["name"] + ".avsc"))
+                    out = {"ok": to_parsing_canonical_form(res)}
+                except Exception as e:  # noqa
+                    out = {"err": exc_class(e), "msg": str(e)[:80].replace(d, "<dir>")}
+                after = {}
+                for name in spec["files"]:
+                    with open(os.path.join(d, name + ".avsc")) as f:
+                        after[name] = json.load(f)
+                out["files_intact"] = after == spec["files"]
+                return out
+            finally:
+                if own:
+                    shutil.rmtree(d, ignore_errors=True)
+        if op == "container_meta":
+            # the caller's metadata dictionary: the history's own object when it has one (handed to call after call)
+            meta = cache.setdefault("meta", copy.deepcopy(spec["metadata"]))
+            fo = io.BytesIO()
+            if spec.get("via") == "Writer":
+                from fastavro.write import Writer
+                w_ = Writer(fo, sobj, sync_marker=b"0123456789abcdef", metadata=meta, codec=spec.get("codec", "null"))
+                for rec in spec["values"]:
+                    w_.write(rec)
+                w_.flush()
+            else:
+                fastavro.writer(fo, sobj, spec["values"], sync_marker=b"0123456789abcdef", metadata=meta, codec=spec.get("codec", "null"))
+            raw = fo.getvalue()
+            rd_ = fastavro.reader(io.BytesIO(raw))
+            back = [canon(to_wire(x)) for x in rd_]
+            return {"ok": [hashlib.sha1(raw).hexdigest(), back, {k: v for k, v in rd_.metadata.items() if k in spec["metadata"]}]}
         raise ValueError("unknown op " + op)
     except RecursionError:
         return {"err": "fuel"}
@@ -468,6 +516,98 @@ def directed_histories(run, tier, seed, pristine):
                 break
 
 
+def load_and_metadata_histories(run, tier, seed, pristine):
+    """(a) a directory of schema files that refer to one another by name (a random acyclic reference graph: shared leaves,
+    diamonds, references in arrays / maps / unions), loaded in a random order, the same files again and again, with
+    load_schema and load_schema_ordered;  (b) ONE metadata dictionary handed to writer call after writer call, with a
+    different schema each time.  Every call is compared with the same call made first in a pristine fork."""
+    import shutil
+    import tempfile
+    rr = random.Random(seed * 1700171 + 9)
+
+    def graph(n):
+        files = {}
+        for i in range(n):
+            fields = [{"name": "id", "type": "long"}]
+            deps = [j for j in range(i) if rr.random() < 0.6]
+            rr.shuffle(deps)
+            for k, j in enumerate(deps):
+                ref = "shop.T%d" % j
+                shape = rr.choice(["direct", "array", "map", "union"])
+                ty = ref if shape == "direct" else {"type": "array", "items": ref} if shape == "array" else \
+                    {"type": "map", "values": ref} if shape == "map" else ["null", ref]
+                fields.append({"name": "f%d" % k, "type": ty})
+            files["shop.T%d" % i] = {"type": "record", "name": "T%d" % i, "namespace": "shop", "fields": fields}
+        return files
+    fixed = {
+        "shop.Money": {"type": "record", "name": "Money", "namespace": "shop", "fields": [{"name": "cents", "type": "long"}]},
+        "shop.Item": {"type": "record", "name": "Item", "namespace": "shop", "fields": [{"name": "sku", "type": "string"}, {"name": "price", "type": "shop.Money"}]},
+        "shop.Order": {"type": "record", "name": "Order", "namespace": "shop", "fields": [
+            {"name": "shipping", "type": "shop.Money"}, {"name": "items", "type": {"type": "array", "items": "shop.Item"}}]},
+        "shop.Invoice": {"type": "record", "name": "Invoice", "namespace": "shop", "fields": [{"name": "order", "type": "shop.Order"}]},
+    }
+    for h in range(scale(tier, 10)):
+        files = fixed if h == 0 else graph(rr.randint(3, 6))
+        names = sorted(files)
+        if h == 0:
+            seq = ["shop.Item", "shop.Order", "shop.Invoice", "shop.Money", "shop.Item", "shop.Order"]
+        else:
+            seq = [rr.choice(names) for _ in range(rr.randint(4, 8))]
+        d = tempfile.mkdtemp(prefix="c17repo")
+        cache = {"repo_dir": d}
+        hist = []
+        try:
+            for c, nm in enumerate(seq):
+                spec = {"op": "load", "files": files, "name": nm}
+                if rr.random() < 0.15:
+                    spec["ordered"] = names          # definitions come before uses in this order
+                hist.append({"load": spec.get("ordered") or nm})
+                got = do_call(copy.deepcopy(spec), cache)
+                fresh = pristine.call(copy.deepcopy(spec))
+                run.cov["evaluations"] += 1
+                run.tag("directed:load-history")
+                if "ok" in fresh:
+                    run.tag("directed:load-history:loaded")
+                if got != fresh:
+                    run.fail({"files": files, "history": hist, "after_history": got, "fresh": fresh, "tags": ["load-history"]},
+                             "load_schema after a history of loads from the same directory differs from the same call made first in a fresh interpreter",
+                             kind="oracle")
+                    break
+        finally:
+            shutil.rmtree(d, ignore_errors=True)
+    # (b)
+    v1 = {"type": "record", "name": "Reading", "namespace": "plant", "fields": [{"name": "sensor", "type": "string"}, {"name": "value", "type": "double"}]}
+    v2 = {"type": "record", "name": "Reading", "namespace": "plant", "fields": [{"name": "sensor", "type": "string"}, {"name": "value", "type": "double"},
+                                                                           {"name": "unit", "type": "string"}]}
+    alarm = {"type": "record", "name": "Alarm", "namespace": "plant", "fields": [{"name": "level", "type": {"type": "enum", "name": "Level", "symbols": ["LOW", "HIGH"]}},
+                                                                            {"name": "codes", "type": {"type": "array", "items": "int"}}]}
+    data = {id(v1): [{"sensor": "t1", "value": 291.5}, {"sensor": "t2", "value": 1.5}],
+            id(v2): [{"sensor": "t1", "value": 291.5, "unit": "K"}, {"sensor": "", "value": 0.0, "unit": "bar"}],
+            id(alarm): [{"level": "HIGH", "codes": [1, 2, 3]}, {"level": "LOW", "codes": []}]}
+    for h in range(scale(tier, 4)):
+        cache = {}
+        metadata = {"owner": "plant-%d" % h, "site": "north"} if h % 2 == 0 else {}
+        order = [v1, v2, alarm, v2, v1]
+        if h:
+            rr.shuffle(order)
+        hist = []
+        for c, sch in enumerate(order):
+            spec = {"op": "container_meta", "schema": sch, "values": data[id(sch)], "metadata": metadata, "codec": rr.choice(["null", "deflate"]),
+                    "via": rr.choice(["writer", "Writer"])}
+            if rr.random() < 0.4:
+                spec["use_parsed"] = "m%d" % order.index(sch)
+            hist.append({"schema": sch["name"] + "/%d-fields" % len(sch["fields"]), "via": spec["via"], "codec": spec["codec"]})
+            got = do_call(copy.deepcopy(spec), cache)
+            fresh = pristine.call(copy.deepcopy(spec))
+            run.cov["evaluations"] += 1
+            run.tag("directed:shared-metadata-dict")
+            if got != fresh:
+                run.fail({"metadata": metadata, "history": hist, "after_history": got, "fresh": fresh, "tags": ["shared-metadata-dict"]},
+                         "a writer call given the metadata dictionary earlier writer calls were given differs from the same call made first in a "
+                         "fresh interpreter", kind="oracle")
+                break
+
+
 def run(tier, seed):
     run = Run("C17", tier, seed)
     run.rule = ("histories of 6-14 public calls (parse, canonical form, fingerprint, schemaless write/read, validate, container "
@@ -590,6 +730,7 @@ def run(tier, seed):
                     run.fail(case, "correspondence: module-level state changed that the effect table does not list as written",
                              kind="correspondence")
         directed_histories(run, tier, seed, pristine)
+        load_and_metadata_histories(run, tier, seed, pristine)
         # ---- the same schema *object* handed to consecutive calls and modified in place in between: the
         # result must be that of the object's current content (i.e. of a copy of it in a fresh interpreter)
         from fastavro.utils import generate_one
